@@ -71,8 +71,8 @@ MM_BOUND = ("triples (D,P1,P2): D object of <= docm members (values from W) or a
             "<= patchm members each with one-letter symbolic names a..d and values from the first patchvals entries of V; incompatible pairs skipped as outside the property")
 CREATE_BOUND = ("A, B objects of <= m members, one-letter symbolic names a..d, values chosen by the mask 'vals' from 16 shapes: number, string, {k:n}, {k:n,j:n}, [n], {}, true, null, "
                 "[{k:n,j:n}], [{k:n}], [n,n], [[{k:n,j:n}]], [[{k:n}]], [{k:{i:n,j:n}}], [{k:{i:n}}], [{k:null}], escape-alphabet string, [escape-alphabet string]; leaves symbolic")
-EQ_Q = [{"nshapes": 22, "modes": 31, "containers": 0, "escmask": 268305}]
-EQ_BOUND = ("pairs of 22 value shapes (<= 4 nodes, depth <= 2, all six root kinds incl. null, [null], {k:null}, escape-alphabet strings); member names one symbolic letter a..d, leaves symbolic; "
+EQ_Q = [{"nshapes": 23, "modes": 31, "containers": 0, "escmask": 268305}]
+EQ_BOUND = ("pairs of 23 value shapes (<= 4 nodes, depth <= 2, all six root kinds incl. null, [null], {k:null}, escape-alphabet strings); member names one symbolic letter a..d, leaves symbolic; "
             "second text independent, \\u00XX-respelled, member-reversed, padded with symbolic whitespace bytes at every structural position, or reversed and padded")
 
 R = {}
@@ -99,7 +99,7 @@ R["C04"] = {"harnesses": [
       "MergePatch / MergeMergePatches / CreateMergePatch with one argument = every byte string of n bytes (either position), the other one of 6 companion texts"),
     H("H_Bytes_Decode", ns(0, 4), ns(0, 6), ["bytes/decode/malformed", "bytes/decode/wellformed"],
       "DecodePatch on every byte string of n bytes, then the four Operation accessors, Apply and ApplyIndent on whatever was accepted"),
-    H("H_Bytes_ApplyDoc", ns(0, 3), ns(0, 5), ["bytes/applydoc/malformed", "bytes/applydoc/wellformed"],
+    H("H_Bytes_ApplyDoc", ns(0, 4), ns(0, 5), ["bytes/applydoc/malformed", "bytes/applydoc/wellformed"],
       "Apply / ApplyIndent of 10 companion patches (incl. root replaced by null followed by add, test without value, copy from root) to every document of n bytes"),
     H("H_Bytes_ApplyOpts", ns(0, 3), ns(0, 5), ["bytes/applyopts/end"],
       "ApplyIndentWithOptions with all five options symbolic (limit: any int64), 10 companion patches, every document of n bytes"),
@@ -114,7 +114,7 @@ R["C04"] = {"harnesses": [
     H("H_Bytes_Equal", ns(0, 3, m=-1) + [{"n": 2, "m": 2}], ns(0, 5, m=-1) + [{"n": 2, "m": 2}, {"n": 3, "m": 3}], ["bytes/equal/malformed", "bytes/equal/wellformed"], "legacy root package: Equal on every byte string of n bytes", target="legacy"),
     H("H_Bytes_Merge", ns(0, 3), ns(0, 5), ["bytes/merge/malformed", "bytes/merge/wellformed"], "legacy root package: MergePatch / MergeMergePatches / CreateMergePatch with one argument = every byte string of n bytes", target="legacy"),
     H("H_Bytes_Decode", ns(0, 4), ns(0, 5), ["bytes/decode/malformed", "bytes/decode/wellformed"], "legacy root package: DecodePatch + accessors + Apply/ApplyIndent on every byte string of n bytes", target="legacy"),
-    H("H_Bytes_ApplyDoc", ns(0, 3), ns(0, 5), ["bytes/applydoc/malformed", "bytes/applydoc/wellformed"], "legacy root package: Apply / ApplyIndent of 10 companion patches to every document of n bytes", target="legacy"),
+    H("H_Bytes_ApplyDoc", ns(0, 4), ns(0, 5), ["bytes/applydoc/malformed", "bytes/applydoc/wellformed"], "legacy root package: Apply / ApplyIndent of 10 companion patches to every document of n bytes (n = 4 reaches the document null)", target="legacy"),
     H("H_Legacy_Apply", [L_K1_Q], [L_K1, L_K2_FLAT], ["legacy/end"], "legacy root package: the C18 family under the panic assertion", target="legacy"),
     H("H_Equal", [{"nshapes": 20, "modes": 15, "containers": 0}], None, ["equal/true"], "legacy root package: the C06 family incl. null roots and nulls inside arrays", target="legacy")],
     "anchors": ["v5.Equal", "v5.CreateMergePatch", "v5.DecodePatch", "v5.doMergePatch", "(github.com/evanphx/json-patch/v5.Patch).ApplyIndentWithOptions", "v5.validateOperation", "(*github.com/evanphx/json-patch/v5.lazyNode).equal"],
@@ -190,7 +190,7 @@ R["C14"] = {"harnesses": [H("H_Apply", [C14_K1, C14_ESCPARENT, C14_DASHNAME], [C
     "assumptions": ["outside (property): null or scalar on the path, negative indices, '-' other than last; don't-care (DESIGN appendix A): existing array shorter than the LAST token's index"],
     "outside_bound": ["paths longer than 3 tokens, indices above 9"]}
 R["C05"] = {"harnesses": apply_harnesses() + [H("H_Merge", MERGE_Q, None, ["merge/object-patch"], MERGE_BOUND),
-    H("H_Escape", [{"natoms": 1, "atommask": 524287}], None, ["escape/end"], "escape-alphabet strings (16 atoms) in untouched values and member names: strings keep their value through Apply"),
+    H("H_Escape", [{"natoms": 1, "atommask": 268337}], None, ["escape/end"], "escape-alphabet strings (symbolic plain byte, raw U+2028/9, non-BMP, short escapes, boundary \\u escapes) in untouched values and member names: strings keep their value through Apply"),
     H("H_Apply", [{"k": 0, "maxtok": 1, "tokmask": 1, "shapemask": 262143, "nvals": 2, "stable": 1}, {"k": 1, "maxtok": 2, "tokmask": 1, "shapemask": 196608, "nvals": 2, "kmask0": 63, "stable": 1}],
       [{"k": 0, "maxtok": 1, "tokmask": 1, "shapemask": 262143, "nvals": 2}, {"k": 2, "maxtok": 1, "tokmask": 1, "shapemask": 196608, "nvals": 2, "kmask0": 63, "kmask1": 63}], ["apply/end"],
       "literal family: the empty patch on all 18 document shapes, and K operations on two documents whose numbers are the templates d.d, -0, a 23-digit integer with three symbolic digits, 1e400, -d, dEdd with members in non-sorted order: output compared ordered and literal-exact with the reference")],
@@ -241,9 +241,9 @@ R["C18"] = {"harnesses": [H("H_Legacy_Apply", [L_K1_Q, L_K2_FLAT, L_K2_INNER, L_
     "outside_bound": AP_OUTSIDE}
 R["C19"] = {"harnesses": [
     H("H_Merge", MERGE_Q, None, ["merge/end", "merge/object-patch"], MERGE_BOUND + " (asserted for object and array patches)", target="legacy"),
-    H("H_MergeMerge", [MM_Q[0], {"docm": 1, "docvals": 2, "patchm": 2, "patchvals": 4, "nonobjdocs": 0}], MM_Q, ["mm/end"], MM_BOUND, target="legacy"),
-    H("H_Create_Legacy", [{"m": 2, "vals": 7}, {"m": 1, "vals": 65535}], [{"m": 2, "vals": 63}, {"m": 1, "vals": 65535}], ["create/end"], CREATE_BOUND + "; numbers are CONCRETE one-digit integers (the legacy path goes through float64; no float theory in the engine)", target="legacy"),
-    H("H_Equal", [{"nshapes": 20, "modes": 29, "containers": 1}], None, ["equal/true", "equal/false"], EQ_BOUND + " (object and array roots, no escaped spellings)", target="legacy")],
+    H("H_MergeMerge", [MM_Q[0], {"docm": 1, "docvals": 2, "patchm": 2, "patchvals": 4, "nonobjdocs": 0}], [MM_Q[0], MM_Q[2], {"docm": 1, "docvals": 3, "patchm": 2, "patchvals": 5, "nonobjdocs": 0}], ["mm/end"], MM_BOUND, target="legacy"),
+    H("H_Create_Legacy", [{"m": 2, "vals": 7}, {"m": 1, "vals": 65535}], [{"m": 2, "vals": 23}, {"m": 1, "vals": 65535}], ["create/end"], CREATE_BOUND + "; numbers are CONCRETE one-digit integers (the legacy path goes through float64; no float theory in the engine)", target="legacy"),
+    H("H_Equal", [{"nshapes": 20, "modes": 29, "containers": 1}, {"nshapes": 23, "modes": 16, "containers": 1, "escmask": 1}], None, ["equal/true", "equal/false"], EQ_BOUND + " (object and array roots, no escaped spellings)", target="legacy")],
     "anchors": ["json-patch.doMergePatch", "json-patch.mergeDocs", "json-patch.pruneNulls", "json-patch.CreateMergePatch", "json-patch.getDiff", "json-patch.matchesValue", "json-patch.Equal", "(*github.com/evanphx/json-patch.lazyNode).equal"],
     "assumptions": ["staged legacy module as for C18", "CreateMergePatch numbers concrete plain integers (float64-exact)", "Equal on object/array roots without escapes (property)"],
     "outside_bound": ["families as for C02/C03/C06/C07 at their quick bounds"]}
